@@ -2,7 +2,9 @@
 // govc:bound 300 statements (2000 with GOVC_BOUND=thorough) generated from the documented grammar (select items with aliases, arithmetic, function calls, CASE, string literals holding clause keywords; WHERE; GROUP BY with a window; HAVING; ORDER BY; LIMIT; WITH) x 4 re-layouts each (random keyword case, random runs of spaces, tabs and line breaks between tokens, optional blanks around punctuation)
 // Bounded stand-in (NOT a proof) for the faithfulness half of the property, which the totality contracts do not state:
 // the parse of a re-laid-out statement has the same structure as the parse of its canonical spelling (upper-case keywords,
-// single blanks), and for statements without a window both spellings produce the same rows on a fixed feed.
+// single blanks), the canonical parse holds exactly the clauses that were written (WHERE / HAVING text, GROUP BY columns,
+// ORDER BY keys, LIMIT, DISTINCT, number of select items, source), and for statements without a window both spellings
+// produce the same rows on a fixed feed.
 package streamsql
 
 import (
@@ -164,17 +166,38 @@ func TestGovcBounded_layout_invariance(t *testing.T) {
 	for it := 0; it < n; it++ {
 		windowed := rng.Intn(3) == 0
 		var ts []govcTok
+		// what was written, clause by clause (the expectation for the canonical parse)
+		wantWhere, wantHaving, wantLimit, wantDistinct, wantFields := "", "", 0, false, 0
+		var wantGroup, wantOrder []string
+		clauseText := func(toks []govcTok) string {
+			var ws []string
+			for _, t := range toks {
+				switch {
+				case t.kw && t.s == "AND":
+					ws = append(ws, "&&")
+				case t.kw && t.s == "OR":
+					ws = append(ws, "||")
+				default:
+					ws = append(ws, t.s)
+				}
+			}
+			return govcNormText(strings.Join(ws, " "))
+		}
 		ts = append(ts, govcKW("SELECT")...)
 		if !windowed && rng.Intn(6) == 0 {
 			ts = append(ts, govcKW("DISTINCT")...)
+			wantDistinct = true
 		}
 		if windowed {
 			ts = append(ts, govcLex("name , COUNT ( * ) ~AS c , AVG ( temp ) ~AS a")...)
+			wantFields = 3
 			if rng.Intn(2) == 0 {
 				ts = append(ts, govcLex(", MAX ( temp ) - MIN ( temp ) ~AS spread")...)
+				wantFields = 4
 			}
 		} else {
 			k := 1 + rng.Intn(4)
+			wantFields = k
 			for i, p := range rng.Perm(len(govcItems))[:k] {
 				if i > 0 {
 					ts = append(ts, govcTok{",", false})
@@ -185,12 +208,25 @@ func TestGovcBounded_layout_invariance(t *testing.T) {
 		ts = append(ts, govcLex("~FROM stream")...)
 		if rng.Intn(2) == 0 {
 			ts = append(ts, govcKW("WHERE")...)
-			ts = append(ts, govcLex(govcPreds[rng.Intn(len(govcPreds))])...)
+			pred := govcLex(govcPreds[rng.Intn(len(govcPreds))])
+			ts = append(ts, pred...)
+			wantWhere = clauseText(pred)
+		}
+		havingOnly := !windowed && rng.Intn(8) == 0 // WHERE/FROM directly followed by HAVING (no GROUP BY): structure only
+		if havingOnly {
+			h := govcLex("id > 1 ~OR temp < 100")
+			ts = append(ts, govcKW("HAVING")...)
+			ts = append(ts, h...)
+			wantHaving = clauseText(h)
 		}
 		if windowed {
 			ts = append(ts, govcLex("~GROUP ~BY name , TumblingWindow ( '1s' )")...)
+			wantGroup = []string{"name"}
 			if rng.Intn(2) == 0 {
-				ts = append(ts, govcLex("~HAVING c > 1 ~AND a < 100")...)
+				h := govcLex("c > 1 ~AND a < 100")
+				ts = append(ts, govcKW("HAVING")...)
+				ts = append(ts, h...)
+				wantHaving = clauseText(h)
 			}
 			// WITH directly follows GROUP BY / HAVING, as in every documented example
 			if rng.Intn(2) == 0 {
@@ -198,14 +234,30 @@ func TestGovcBounded_layout_invariance(t *testing.T) {
 			}
 			if rng.Intn(2) == 0 {
 				ts = append(ts, govcLex("~ORDER ~BY a ~DESC , name")...)
+				wantOrder = []string{"a DESC", "name ASC"}
 			}
 		}
 		if rng.Intn(3) == 0 {
-			ts = append(ts, govcLex(fmt.Sprintf("~LIMIT %d", 1+rng.Intn(4)))...)
+			wantLimit = 1 + rng.Intn(4)
+			ts = append(ts, govcLex(fmt.Sprintf("~LIMIT %d", wantLimit))...)
 		}
 		canon := govcRender(ts, rng, true)
 		pc := rsql.NewParser(canon)
 		sc, errc := pc.Parse()
+		if errc == nil {
+			// the canonical parse against what was written
+			cases++
+			var gotOrder []string
+			for _, o := range sc.OrderBy {
+				gotOrder = append(gotOrder, o.Expression+" "+string(o.Direction))
+			}
+			written := fmt.Sprintf("where=%q having=%q group=%q order=%q limit=%d distinct=%v fields=%d source=stream", wantWhere, wantHaving, wantGroup, wantOrder, wantLimit, wantDistinct, wantFields)
+			parsed := fmt.Sprintf("where=%q having=%q group=%q order=%q limit=%d distinct=%v fields=%d source=%s", govcNormText(sc.Condition), govcNormText(sc.Having), sc.GroupBy, gotOrder, sc.Limit, sc.Distinct, len(sc.Fields), sc.Source)
+			if written != parsed {
+				fails++
+				fmt.Printf("GOVC-BOUNDED-FAIL layout_invariance canonical=`%s`: clauses written %s, parsed %s\n", canon, written, parsed)
+			}
+		}
 		for v := 0; v < 4; v++ {
 			cases++
 			variant := govcRender(ts, rng, false)
@@ -217,7 +269,7 @@ func TestGovcBounded_layout_invariance(t *testing.T) {
 				detail = fmt.Sprintf("canonical parse error=%v, re-laid-out parse error=%v", errc, errv)
 			case errc == nil && govcShape(sc) != govcShape(sv):
 				detail = fmt.Sprintf("structure differs:\n--- canonical\n%s--- re-laid-out\n%s", govcShape(sc), govcShape(sv))
-			case errc == nil && !windowed:
+			case errc == nil && !windowed && !havingOnly:
 				rc, e1 := govcRunRows(canon, feed)
 				rv, e2 := govcRunRows(variant, feed)
 				if (e1 == nil) != (e2 == nil) || !reflect.DeepEqual(rc, rv) {
